@@ -37,6 +37,7 @@ func runC06(c *Ctx) {
 	c06WindowFixed(c)
 	c06LocatorBounds(c)
 	c06CryptoMergeSkipsOverlap(c)
+	c06RangeBound(c)
 }
 
 func c06Restore(c *Ctx) {
